@@ -19,7 +19,7 @@ from concurrent.futures import ProcessPoolExecutor, as_completed
 
 VERIF = os.path.dirname(os.path.dirname(os.path.abspath(__file__)))
 REPLAY_DIR = os.path.join(VERIF, "replay")
-EVIDENCE_DIR = os.path.join(VERIF, "evidence")
+EVIDENCE_DIR = os.environ.get("VERIF_EVIDENCE_DIR") or os.path.join(VERIF, "evidence")  # scratch runs against other trees must not overwrite evidence
 BASELINE_DIR = os.path.join(VERIF, "baseline")
 KNOWN = os.path.join(VERIF, "known_findings.json")
 PY = os.path.join(VERIF, ".venv", "bin", "python")
@@ -27,7 +27,7 @@ PY = os.path.join(VERIF, ".venv", "bin", "python")
 
 class Contract:
     def __init__(self, prop, name, fn, configs, functions, max_paths=2000, timeout_s=None, task_timeout=600,
-                 gens=None, native_samples=3, rtol=1e-7, atol=1e-9, doc=""):
+                 gens=None, native_samples=3, rtol=1e-7, atol=1e-9, doc="", pinned=None):
         self.prop, self.name, self.fn, self.configs = prop, name, fn, configs
         self.functions = functions  # real functions under contract (for evidence)
         self.max_paths, self.timeout_s, self.task_timeout = max_paths, timeout_s, task_timeout
@@ -35,6 +35,7 @@ class Contract:
         self.native_samples = native_samples
         self.rtol, self.atol = rtol, atol
         self.doc = doc
+        self.pinned = pinned or []  # [(cfg, {input: values})]: fixed native inputs evaluated on every run
 
 
 def load_contracts(prop):
@@ -284,6 +285,9 @@ def check_property(prop, tier="quick", seed=0, jobs=None, write_baseline=False, 
         step = max(1, len(cfgs) // (4 if tier == "quick" else 16))
         for cfg in cfgs[::step]:
             payloads.append({"prop": prop, "contract": c.name, "cfg": cfg, "seed": seed, "samples": c.native_samples if tier == "quick" else 4 * c.native_samples})
+    for c in contracts:
+        for pcfg, pvals in c.pinned:
+            payloads.append({"prop": prop, "contract": c.name, "cfg": pcfg, "values": pvals, "pinned": True})
     if payloads:
         with ProcessPoolExecutor(max_workers=min(jobs, len(payloads)), mp_context=fork) as npool:
             native_outs = list(npool.map(_native_inproc, payloads))
